@@ -10,6 +10,7 @@ import Garnish.Lemmas.RuntimeBase
 import Garnish.Model.Runtime.Refines
 import Garnish.Model.Runtime.Logical
 import Garnish.Model.Runtime.Jumps
+import Garnish.Lemmas.RuntimeRefStore
 set_option linter.unusedSimpArgs false
 set_option linter.unusedVariables false
 namespace Garnish.Props.RuntimeRefine
@@ -189,26 +190,25 @@ theorem C10_refine_jump_if_no_point {s : σ} {j : Nat} (hj : S.jumpTable s j = n
   · rw [jumpIfTrue, bind_ok (getFromJumpTable_apply j s), hj]; rfl
   · rw [jumpIfFalse, bind_ok (getFromJumpTable_apply j s), hj]; rfl
 
-/-- `end_expression`, register part: the result `r` is popped, `pop_frame` is asked once; with no frame left
-`r` replaces the current input value (state error if there is none) and execution ends at the instruction
-length; otherwise the input value is popped and `r` is pushed on the registers `pop_frame` returned to -/
+/-- `end_expression` (Abs/Machine `.endExpression`): the result `r` is popped and `pop_frame` asked once. With no frame
+left `r` replaces the current input value (state error if there is none) and execution ends at the instruction
+length. Otherwise execution returns to the frame's address: the registers are the caller's with `r` on top, the
+callee's input value is popped, the frame is gone. -/
 theorem C10_refine_end_expression (L : StoreLaws S) {s : σ} {r : Nat} {rest : List Nat}
     (hregs : S.regs s = r :: rest) :
-    ∃ s0 o s1, Eff S s s0 rest (S.vals s) ∧ S.popFrame s0 = .ok (o, s1) ∧
-      match o with
-      | none =>
-        (match S.vals s with
-         | [] => endExpression S s = .err .state
-         | _ :: vs => ∃ s', endExpression S s = .ok (some (S.instrLen s), s') ∧ Eff S s s' (S.regs s1) (r :: vs))
-      | some jumpPoint =>
-        ∃ s', endExpression S s = .ok (some jumpPoint, s') ∧ Eff S s s' (r :: S.regs s1) (S.vals s).tail := by
+    match S.frames s with
+    | [] =>
+      (match S.vals s with
+       | [] => endExpression S s = .err .state
+       | _ :: vs => ∃ s', endExpression S s = .ok (some (S.instrLen s), s') ∧ Eff S s s' rest (r :: vs))
+    | (ret, saved) :: fs =>
+      ∃ s', endExpression S s = .ok (some ret, s') ∧ FEff S s s' (r :: saved) (S.vals s).tail fs := by
   obtain ⟨s0, h0, e0⟩ := nextRef_cons L hregs
-  obtain ⟨o, s1, h1, e1⟩ := L.popFrame s0
-  rw [e0.vals] at e1
-  refine ⟨s0, o, s1, e0, h1, ?_⟩
-  have e01 := e0.trans e1
-  cases o with
-  | none =>
+  cases hf : S.frames s with
+  | nil =>
+    obtain ⟨s1, h1, e1⟩ := L.popFrameNil s0 (by rw [e0.frames, hf])
+    rw [e0.regs, e0.vals] at e1
+    have e01 := e0.trans e1
     simp only []
     cases hv : S.vals s with
     | nil =>
@@ -219,28 +219,64 @@ theorem C10_refine_end_expression (L : StoreLaws S) {s : σ} {r : Nat} {rest : L
       rw [bind_ok h2]; rfl
     | cons v vs =>
       obtain ⟨s2, h2, e2⟩ := L.setCurrentCons r s1 v vs (by rw [e1.vals, hv])
+      rw [e1.regs] at e2
       refine ⟨s2, ?_, e01.trans e2⟩
       rw [endExpression, bind_ok h0, bind_ok h1]
       simp only []
       rw [bind_ok h2]
       simp only []
       rw [bind_ok (read_apply S.instrLen s2), (e01.trans e2).keeps.ilen]; rfl
-  | some jp =>
+  | cons fr fs =>
+    obtain ⟨ret, saved⟩ := fr
+    obtain ⟨s1, h1, e1⟩ := L.popFrameCons s0 ret saved fs (by rw [e0.frames, hf])
+    rw [e0.vals] at e1
+    have e01 := e0.toF.trans e1
     simp only []
-    have hpv : ∃ o2 s2, S.popValueStack s1 = .ok (o2, s2) ∧ Eff S s1 s2 (S.regs s1) (S.vals s).tail := by
+    have hpv : ∃ o2 s2, S.popValueStack s1 = .ok (o2, s2) ∧ Eff S s1 s2 saved (S.vals s).tail := by
       cases hv : S.vals s with
       | nil =>
         obtain ⟨s2, h2, e2⟩ := L.popValueStackNil s1 (by rw [e1.vals, hv])
+        rw [e1.regs] at e2
         exact ⟨none, s2, h2, e2⟩
       | cons v vs =>
         obtain ⟨s2, h2, e2⟩ := L.popValueStackCons s1 v vs (by rw [e1.vals, hv])
+        rw [e1.regs] at e2
         exact ⟨some v, s2, h2, e2⟩
     obtain ⟨o2, s2, h2, e2⟩ := hpv
     obtain ⟨s3, h3, e3⟩ := L.pushRegister r s2
     rw [e2.regs, e2.vals] at e3
-    refine ⟨s3, ?_, (e01.trans e2).trans e3⟩
+    refine ⟨s3, ?_, (e01.thenEff e2).thenEff e3⟩
     rw [endExpression, bind_ok h0, bind_ok h1]
     simp only []
     rw [bind_ok h2, bind_ok h3]; rfl
+
+/-! ### non-vacuity: the reference store satisfies `StoreLaws`; concrete operands -/
+
+/-- `0: ()  1: 5  2: $!  3: "a"` -/
+def exCells : List (RCell F) := [.unit, .num (.int 5), .fls, .chars [97]]
+
+/-- a host that declines everything -/
+def declining : RefHost F := fun _ => none
+
+/-- the hypotheses of `C10_refine_not` hold for the reference store with `5` on top of the registers -/
+example : Pushed (refStore declining) (RefState.init (exCells (F := F)) [1, 7])
+    (Model.Runtime.not (refStore declining) (RefState.init exCells [1, 7])) none [7] .fls :=
+  C10_refine_not (refStore_laws declining) (v := .num (.int 5)) rfl (.num rfl rfl)
+
+/-- the model itself, run: `!5` pushes a new `false` cell (address 4) on the remaining register -/
+example : ∃ s', Model.Runtime.not (refStore declining) (RefState.init (exCells (F := F)) [1, 7]) = .ok (none, s') ∧
+    s'.regs = [4, 7] ∧ s'.cells = exCells ++ [.fls] := ⟨_, rfl, rfl, rfl⟩
+
+/-- `$! && …` with jump table `[40]`: no jump, `false` pushed; `5 && …`: the operand is consumed, jump to 40 -/
+example : ∃ s', Model.Runtime.and (refStore declining) 0 { RefState.init (exCells (F := F)) [2, 7] with jumps := [40] }
+    = .ok (none, s') ∧ s'.regs = [4, 7] := ⟨_, rfl, rfl⟩
+example : ∃ s', Model.Runtime.and (refStore declining) 0 { RefState.init (exCells (F := F)) [1, 7] with jumps := [40] }
+    = .ok (some 40, s') ∧ s'.regs = [7] := ⟨_, rfl, rfl⟩
+
+/-- `"a" ^^ ()` is true; `jump_if_false` on unit jumps -/
+example : ∃ s', Model.Runtime.xor (refStore declining) (RefState.init (exCells (F := F)) [0, 3, 7]) = .ok (none, s') ∧
+    s'.regs = [4, 7] ∧ s'.cells = exCells ++ [.tru] := ⟨_, rfl, rfl, rfl⟩
+example : ∃ s', jumpIfFalse (refStore declining) 0 { RefState.init (exCells (F := F)) [0, 7] with jumps := [40] }
+    = .ok (some 40, s') ∧ s'.regs = [7] := ⟨_, rfl, rfl⟩
 
 end Garnish.Props.RuntimeRefine
